@@ -61,14 +61,18 @@ TfIn64Ok(v, q, n) ==
 \* ------------------------------------------------------------------ rounding with the float64 allowance
 \* v approximates num/den:  |v - num/den| <= 1/2 + (num/den) * 2^-50
 \*                     <=>  2^51 * |v*den - num| <= 2^50 * den + 2 * num
+\* a * 2^k (limbs are base 2^15: whole limbs are shifted in, the rest is one small multiplication)
+TfShl(a, k) == IF a = <<>> THEN <<>> ELSE [i \in 1..(k \div 15) |-> 0] \o BnMulSmall(a, 2 ^ (k % 15))
 TfNearOk(v, num, den) ==
-  BnLeq(BnMul(BnPow2(51), BnAbsDiff(BnMul(v, den), num)), BnAdd(BnMul(BnPow2(50), den), BnMulSmall(num, 2)))
+  BnLeq(TfShl(BnAbsDiff(BnMul(v, den), num), 51), BnAdd(TfShl(den, 50), BnMulSmall(num, 2)))
 \* the mathematical rounding: |v - num/den| <= 1/2
 TfIsNearest(v, num, den) == BnLeq(BnMulSmall(BnAbsDiff(BnMul(v, den), num), 2), den)
-\* floor(num / den) for num/den < 2^64, den > 0 (binary search on the quotient's bits; MC and domain tests only)
+\* floor(num / den), den > 0: binary search on the quotient's bits (the quotient is below 2^(15 * (Len(num) - Len(den) + 1)));
+\* used by the model check only
 TfDivFloor(num, den) ==
-  FoldLeft(LAMBDA acc, b : LET c == BnAdd(acc, BnPow2(b)) IN IF BnLeq(BnMul(c, den), num) THEN c ELSE acc,
-           <<>>, [i \in 1..64 |-> 64 - i])
+  LET nb == IF Len(num) < Len(den) THEN 0 ELSE 15 * (Len(num) - Len(den) + 1)
+  IN FoldLeft(LAMBDA acc, b : LET c == BnAdd(acc, TfShl(<<1>>, b)) IN IF BnLeq(BnMul(c, den), num) THEN c ELSE acc,
+              <<>>, [i \in 1..nb |-> nb - i])
 
 \* ------------------------------------------------------------------ D, T: ticks <-> time
 Tf60e9 == BnMul(BnOfNat(60000), BnOfNat(1000000))                \* nanoseconds per minute
